@@ -140,6 +140,34 @@ def dataseg_module(rnd, init_active=False):
     return m, kinds
 
 
+def _skip_leb(raw, p):
+    while raw[p] & 0x80:
+        p += 1
+    return p + 1
+
+
+def tweak_body(raw, where):
+    """Flip one bit of one code byte of a raw function body (locals declarations + code), keeping the declarations intact."""
+    p = 0
+    n = 0
+    sh = 0
+    while True:
+        c = raw[p]; p += 1
+        n |= (c & 0x7f) << sh; sh += 7
+        if not c & 0x80:
+            break
+    for _ in range(n):
+        p = _skip_leb(raw, p) + 1
+    code0, last = p, len(raw) - 1  # raw[last] is the final `end`
+    if last <= code0:
+        pos = last  # empty body: only the end byte can change
+    else:
+        pos = {0: code0, 1: last - 1, 2: max(code0, last - 2), 3: max(code0, last - 3), 4: (code0 + last) // 2}[where]
+    out = bytearray(raw)
+    out[pos] ^= 0x01
+    return bytes(out)
+
+
 def reference_variants(rnd, b):
     """Reference modules for -r: itself, some bodies changed, permuted/duplicated, unrelated."""
     out = [('self', b)]
@@ -165,6 +193,14 @@ def reference_variants(rnd, b):
             for raw in raws:
                 m4.funcs.append(wasm.Func(t, raw=raw))
             out.append(('permuted', m4.encode()))  # not a valid module for V8, but w2c2 only hashes the bodies
+            # every body differs from the module's in exactly ONE byte (same length), at a position rotating over: first code byte,
+            # the three bytes before the final `end`, the middle. No function may then be classified static.
+            for vt, rot in (('tweak', 0), ('tweak2', 2)):
+                m6 = Module()
+                t = m6.add_type([], [])
+                for i, raw in enumerate(m3.raw_bodies):
+                    m6.funcs.append(wasm.Func(t, raw=tweak_body(raw, (i + rot) % 5)))
+                out.append((vt, m6.encode()))
     except Exception:
         pass
     out.append(('unrelated', open(os.path.join(env.VERIF, 'corpus', 'examples', 'fac.wasm'), 'rb').read()))
